@@ -284,6 +284,7 @@ class Exits:
             try:
                 from . import facts as _facts
                 _facts.ABBR[dg] = _facts.leaves(desc)       # what the abbreviation stands for (nested abbreviations expanded)
+                _facts.ABBR_DEC[dg] = frozenset(_facts.decisions(desc))   # and the decisions made inside it
             except Exception:
                 pass
             desc = desc[:80] + '…#' + dg
